@@ -577,6 +577,20 @@ def _fault_value(kind, y, sd):
         return np.array(float("nan"))
     if kind == "sd_zero_arr":
         return (y, np.array([0.0]))
+    if kind == "complex_arr":
+        return np.array([complex(y, 3.0)])
+    if kind == "complex0d":
+        return np.array(complex(y, 2.0))
+    if kind == "complex_np":
+        return np.complex128(complex(y, 1.5))
+    if kind == "inf_arr":
+        return np.array([[float("inf")]])
+    if kind == "pair_complex_arr":
+        return (np.array([complex(y, 3.0)]), sd)
+    if kind == "sd_complex_arr":
+        return (y, np.array([complex(abs(sd if sd else 1.0), 2.0)]))
+    if kind == "sd_neg_arr":
+        return (y, np.array(-abs(sd if sd else 1.0)))
     table = {
         "nan": float("nan"), "inf": float("inf"), "-inf": float("-inf"),
         "complex": complex(y, 1.0), "vector": np.array([y, y]), "none": None,
